@@ -414,6 +414,8 @@ def plan_c08(tier, seed):
     add("g2", 3, 1, 2, pre={"in1.txt.p": "p.out(in=in1.txt;)"}, id="C08-g2-i3-m2-pre1")
     add("g3", 2, 1, 2, pre={"in1.txt.p.q": "q.out(in=p.out(in=in1.txt;);)"}, id="C08-g3-i2-m2-preq1")
     # a process with two out-ports: the order holds on EACH of them
+    # more input sets than a process has room for at once (buffer 1): four and five items behind each other
+    add("g2", 4, 1, 2, mode="delay", delay=1, id="C08-g2-i4-b1-m2-delay1"); add("g2", 5, 1, 3, mode="delay", delay=1, id="C08-g2-i5-b1-m3-delay1")
     add("g7", 2, 1, 2, id="C08-g7-i2-m2-two-out-ports"); add("g7", 3, 1, 3, id="C08-g7-i3-m3-two-out-ports")
     # arrival order that is NOT the name order of the files
     add("g2", 3, 1, 2, rev_src=True, id="C08-g2-i3-m2-reverse-name-order"); add("g3", 2, 1, 2, rev_src=True, id="C08-g3-i2-m2-reverse-name-order")
@@ -829,13 +831,15 @@ def plan_c01(tier, seed):
             jobs.append(with_delay_fallback(wf("C01", "gsplit1", 2, 1, 2, "func", oracles=o + ["clean"], tier=tier, events_dep=False, crash=True, disk_dep=False, id="C01-crash-filesplitter-2files")))
         # a command that APPENDS to its output (>>, resumable downloads, chunk writers): killed at every point, then
         # restarted in place and after cleanup - bytes of the killed command must never reach the final path
+        # real bash: the shell of a command exits while a process substitution of it still writes a declared output
+        jobs.append({"id": "C01-real-bash-process-substitution", "prop": "C01", "kind": "procsub", "mode": "single", "budget": 60, "oracles": [], "events_dep": False, "force_all": -1, "args": {}})
         aj = wf("C01", "g2", 1, 1, 1, "cmd", oracles=o + ["clean"], tier=tier, events_dep=False, crash=True, disk_dep=True, extra="appendout", id="C01-crash-g2-appending-command")
         aj["_snap"] = True
         aj["snap_dir"] = os.path.join(ctx["scratch"], "snaps", aj["id"])
         jobs.append(aj)
         return jobs
     return {"level": "fault_enumeration", "stages": [stage1, recovery_stage("C01", tier, "s", ["nohang", "c01", "c04"], crash=False)],
-            "rule": "(+ a command that appends to its output: every crash state re-run in place and after cleanup, final bytes = reference) crash points: the disk after EVERY file-system mutation (partial writes, each rename, each step of temp-dir removal) of every explored schedule (one task in flight: FS mutations globally dependent, closed; two in flight: path-dependent DPOR + delay bound) x fault kinds {exit before/mid/after writing, killed, output missing, run-time panic of a Go function after half of its output} per task; + an absolute destination on another device (rename answers EXDEV); state predicate on every such disk: a declared output that exists holds the complete reference bytes and its task ended successfully, every other new data file is below a _scipipe_tmp* directory; distinct_nontrivial = distinct crash states + distinct (fault, outcome) pairs",
+            "rule": "(+ one real-bash run of a command whose process substitution outlives its shell: complete when Run returns) (+ a command that appends to its output: every crash state re-run in place and after cleanup, final bytes = reference) crash points: the disk after EVERY file-system mutation (partial writes, each rename, each step of temp-dir removal) of every explored schedule (one task in flight: FS mutations globally dependent, closed; two in flight: path-dependent DPOR + delay bound) x fault kinds {exit before/mid/after writing, killed, output missing, run-time panic of a Go function after half of its output} per task; + an absolute destination on another device (rename answers EXDEV); state predicate on every such disk: a declared output that exists holds the complete reference bytes and its task ended successfully, every other new data file is below a _scipipe_tmp* directory; distinct_nontrivial = distinct crash states + distinct (fault, outcome) pairs",
             "assumptions": BASE_ASSUMPTIONS + ["kill = process-group kill: completed syscalls persist (no power-loss model)", "the .audit.json side-car and parent directories created at the final location are not 'output files' in the statement's sense"],
             "distinct_nontrivial_fn": lambda rs: sum((r.get("distinct_crash_states") or 0) + (r.get("distinct_outcomes") or 0) for r in rs)}
 
